@@ -472,7 +472,11 @@ theorem grammar_good {P : Token → Prop} {ts : List Token} (h : TsOk P ts) : (g
   have e1 := parsePackage_good h
   cases h1 : parsePackage ts with
   | err p c => exact e1.err_of h1
-  | ok pkg ts1 => exact parseDefs_good _ _ _ (e1.ok_of h1)
+  | ok pkg ts1 =>
+    simp only
+    split
+    · exact e1.ok_of h1
+    · exact parseDefs_good _ _ _ (e1.ok_of h1)
 
 /-- every error of `parseTokens` carries the position of one of the tokens (or of the default
     EOF token). -/
